@@ -253,20 +253,24 @@ func vc07Limits(thorough bool) []vc07Limit {
 			return vc07PayloadUniverse("burst", prevs, vc07SmallPayload), [2][]int{{0}, {0}}, []vc07Phase{{BeforeTicks: [2][]int{ids, nil}}}
 		}}
 		if k >= 100 {
-			l.Kinds = sweep
-			l.Kinds2 = all
+			l.Kinds = all
 		}
 		out = append(out, l)
 	}
 	// --- a burst split over two intervals (the log of received refs and the queue fill up over time) ------------------
 	for _, kk := range [][2]int{{100, 1}, {101, 1}, {1, 100}, {99, 2}, {150, 150}} {
 		kk := kk
-		out = append(out, vc07Limit{Name: fmt.Sprintf("burst-two-intervals-%d+%d", kk[0], kk[1]), Class: fmt.Sprintf("burst-two-intervals-%d+%d", kk[0], kk[1]),
+		l := vc07Limit{Name: fmt.Sprintf("burst-two-intervals-%d+%d", kk[0], kk[1]), Class: fmt.Sprintf("burst-two-intervals-%d+%d", kk[0], kk[1]),
 			Build: func() (*vc07Universe, [2][]int, []vc07Phase) {
 				prevs, a := vc07Chain([][]int{nil}, 0, kk[0])
 				prevs, b := vc07Chain(prevs, a[len(a)-1], kk[1])
 				return vc07PayloadUniverse("burst2", prevs, vc07SmallPayload), [2][]int{{0}, {0}}, []vc07Phase{{BeforeTicks: [2][]int{a, nil}}, {BeforeTicks: [2][]int{b, nil}}}
-			}})
+			}}
+		if kk[0] >= 100 {
+			l.Kinds = sweep
+			l.Kinds2 = all
+		}
+		out = append(out, l)
 	}
 	// --- bursts on both nodes in the same interval (two branches, both queues overflow) -------------------------------
 	for _, kk := range [][2]int{{1, 1}, {100, 100}, {101, 101}, {150, 1}, {101, 99}, {150, 150}} {
@@ -277,8 +281,9 @@ func vc07Limits(thorough bool) []vc07Limit {
 				prevs, b := vc07Chain(prevs, 0, kk[1])
 				return vc07PayloadUniverse("burstAB", prevs, vc07SmallPayload), [2][]int{{0}, {0}}, []vc07Phase{{BeforeTicks: [2][]int{a, b}}}
 			}}
-		if kk == [2]int{101, 101} {
+		if kk[0] >= 100 && kk[1] >= 100 {
 			l.Kinds = sweep
+			l.Kinds2 = all
 		}
 		out = append(out, l)
 	}
